@@ -268,9 +268,11 @@ Inductive verdict :=
 | Accept
 | RejNil | RejPreparedPathEmpty | RejPreparedMissing | RejSqliteEmpty | RejPostgresIncomplete | RejUnsupported.
 
-(* fileExists: `_, err := os.Stat(p); return !os.IsNotExist(err)` *)
+(* fileExists: `_, err := os.Stat(p); return err == nil` - any error of os.Stat means "not there".
+   (History: until fix commit 63c3b28 it was `!os.IsNotExist(err)`, so ENOTDIR / ENAMETOOLONG / EACCES counted
+   as "exists"; the three-valued oracle is kept so that the tie keeps exercising those answers.) *)
 Definition file_exists (st : stat) : bool :=
-  match st with NotExist => false | _ => true end.
+  match st with Found => true | _ => false end.
 
 Definition is_empty (s : string) : bool := String.eqb s "".
 
